@@ -210,6 +210,7 @@ func impersonate(ca, other *tlsm.CA, certKind string, maxVer uint16) (connected 
 func runC16(r *Result, d *drv.Driver, tier string, seed int64, replay string) {
 	defer c16Sequences(r)
 	defer c16ChainTrust(r)
+	defer c16Expiry(r)
 	defer c16TicketForgery(r)
 	r.Rule = "exhaustive peer matrix against the real crypto/tls: a peer with certificate in {none, valid, self-signed, other CA, expired, wrong host, its own self-signed or foreign-CA leaf followed by a copy of a genuine client leaf / genuine server leaf / the CA certificate, a genuine leaf followed by junk} x max TLS version in {1.0, 1.1, 1.2, 1.3}, plus a plaintext peer, a peer that connects and leaves without sending anything, and one that leaves after the first bytes of a TLS record, " +
 		"attacks a Server (with read/write timeouts 2s, and with none) whose config (weak prior contents) went through DefaultServerTLSConfig (alone; and, for a configuration shared by both roles, followed or preceded by DefaultClientTLSConfig) - observed: session-auth / request-auth / handler invocations and whether a KMIP response came back; and a TLS server with each certificate x version impersonates towards a Client prepared by DefaultClientTLSConfig - observed: Connect result and application bytes received. Expected outcome = the model's handshake predicate. Plus client sequences: a trusting Client first, then a Client trusting only another CA against the same endpoint (TLS 1.2 and 1.3); a Server started by ListenAndServe whose own certificate chain (leaf + issuing CA, as servers are usually configured) comes from another CA than the one its clients must chain to: clients with a certificate from the client CA / from the server's issuing CA / self-signed / none (TLS 1.2 and 1.3, first and second start on the same configuration); and an outsider presenting a session ticket forged with keys the library itself yields for the server's public chain (ListenAndServe path). distinct = one per matrix cell"
@@ -654,4 +655,116 @@ func c16ChainTrust(r *Result) {
 		case <-time.After(3 * time.Second):
 		}
 	}
+}
+
+// c16Expiry: "expired" is judged at the time of the handshake, not at the time the configuration was prepared. A certificate
+// that is still valid when DefaultServerTLSConfig / DefaultClientTLSConfig run and when a first connection is made (which is
+// served - the scenario checks itself) has expired a few seconds later: from then on a peer presenting it is an "expired" peer
+// like any other - no callback, no handler, no response on the server side; no request sent on the client side.
+func c16Expiry(r *Result) {
+	ca := tlsm.NewCA("c16-expiry-ca")
+	const life = 4 * time.Second
+	shortClient := tlsm.Leaf(ca, tlsm.LeafOpts{Host: "client.test", Client: true, ValidFor: life})
+	shortServer := tlsm.Leaf(ca, tlsm.LeafOpts{Host: "kmip.test", ValidFor: life})
+	longServer := tlsm.Leaf(ca, tlsm.LeafOpts{Host: "kmip.test"})
+	longClient := tlsm.Leaf(ca, tlsm.LeafOpts{Host: "client.test", Client: true})
+	issued := time.Now()
+	// role 1: the library's Server, prepared now, meets a client whose certificate expires
+	scfg := &tls.Config{Certificates: []tls.Certificate{longServer}, ClientCAs: ca.Pool}
+	c16ServerPrep(scfg)
+	// role 2: the library's Client configuration, prepared now, meets a server whose certificate expires
+	ccfg := &tls.Config{RootCAs: ca.Pool, ServerName: "kmip.test", Certificates: []tls.Certificate{longClient}}
+	kmip.DefaultClientTLSConfig(ccfg)
+	peerCfg := &tls.Config{Certificates: []tls.Certificate{shortServer}, ClientCAs: ca.Pool, ClientAuth: tls.RequireAndVerifyClientCert}
+
+	serverRole := func() string {
+		var sa, ra, calls int32
+		s := &kmip.Server{TLSConfig: scfg, ReadTimeout: 2 * time.Second, WriteTimeout: 2 * time.Second}
+		s.SessionAuthHandler = func(c net.Conn) (interface{}, error) { atomic.AddInt32(&sa, 1); return nil, nil }
+		s.RequestAuthHandler = func(sc *kmip.SessionContext, a *kmip.Authentication) (interface{}, error) {
+			atomic.AddInt32(&ra, 1)
+			return nil, nil
+		}
+		s.Handle(kmip.OPERATION_ACTIVATE, func(ctx *kmip.RequestContext, item *kmip.RequestBatchItem) (interface{}, error) {
+			atomic.AddInt32(&calls, 1)
+			return kmip.ActivateResponse{UniqueIdentifier: "x"}, nil
+		})
+		sc, cc := rec.Pipe()
+		l := rec.NewListener()
+		l.Push(rec.AcceptStep{Conn: tls.Server(rec.NewConn(sc, 1), scfg)})
+		init := make(chan struct{})
+		ret := make(chan error, 1)
+		go func() { ret <- s.Serve(l, init) }()
+		<-init
+		_ = cc.SetDeadline(time.Now().Add(3 * time.Second))
+		tc := tls.Client(cc, &tls.Config{RootCAs: ca.Pool, ServerName: "kmip.test", Certificates: []tls.Certificate{shortClient}})
+		_ = tc.Handshake()
+		req := kmip.Request{Header: kmip.RequestHeader{Version: kmip.ProtocolVersion{Major: 1, Minor: 4}, BatchCount: 1,
+			Authentication: kmip.Authentication{CredentialType: kmip.CREDENTIAL_TYPE_USERNAME_AND_PASSWORD, CredentialValue: kmip.CredentialUsernamePassword{Username: "u", Password: "p"}}},
+			BatchItems: []kmip.RequestBatchItem{{Operation: kmip.OPERATION_ACTIVATE, RequestPayload: kmip.ActivateRequest{UniqueIdentifier: "a"}}}}
+		got := false
+		if e := kmip.NewEncoder(tc).Encode(&req); e == nil {
+			var resp kmip.Response
+			if e := kmip.NewDecoder(tc).Decode(&resp); e == nil && len(resp.BatchItems) == 1 {
+				got = true
+			}
+		}
+		cc.Close()
+		ctx, cancel := context.WithTimeout(context.Background(), 5*time.Second)
+		_ = s.Shutdown(ctx)
+		cancel()
+		<-ret
+		return fmt.Sprintf("sessionAuth=%d requestAuth=%d handler=%d response=%v", atomic.LoadInt32(&sa), atomic.LoadInt32(&ra), atomic.LoadInt32(&calls), got)
+	}
+	clientRole := func() string {
+		ln, err := tls.Listen("tcp", "127.0.0.1:0", peerCfg)
+		if err != nil {
+			return "cannot listen: " + err.Error()
+		}
+		defer ln.Close()
+		appBytes := make(chan int, 1)
+		go func() {
+			c, err := ln.Accept()
+			if err != nil {
+				appBytes <- 0
+				return
+			}
+			defer c.Close()
+			_ = c.SetDeadline(time.Now().Add(2 * time.Second))
+			buf := make([]byte, 4096)
+			n, _ := c.Read(buf)
+			appBytes <- n
+		}()
+		cl := &kmip.Client{Endpoint: ln.Addr().String(), TLSConfig: ccfg, ReadTimeout: time.Second, WriteTimeout: time.Second}
+		connected := cl.Connect() == nil
+		if connected {
+			_, _ = cl.Send(kmip.OPERATION_ACTIVATE, kmip.ActivateRequest{UniqueIdentifier: "a"})
+			cl.Close()
+		}
+		n := 0
+		select {
+		case n = <-appBytes:
+		case <-time.After(3 * time.Second):
+		}
+		return fmt.Sprintf("connected=%v request-bytes-received=%v", connected, n > 0)
+	}
+	crumb("C16 certificate expiring after the configuration was prepared")
+	firstS, firstC := serverRole(), clientRole()
+	if d := time.Until(issued.Add(life + 1500*time.Millisecond)); d > 0 {
+		time.Sleep(d)
+	}
+	thenS, thenC := serverRole(), clientRole()
+	r.eval("server prepared by DefaultServerTLSConfig; client certificate valid at that time, expired at the time of the connection", true)
+	r.eval("client prepared by DefaultClientTLSConfig; server certificate valid at that time, expired at the time of the connection", true)
+	if firstS != "sessionAuth=1 requestAuth=1 handler=1 response=true" {
+		r.find(Finding{Kind: "disagreement", What: "expiry scenario (harness): a peer with a still-valid certificate was not served", Actual: firstS})
+	} else if thenS != "sessionAuth=0 requestAuth=0 handler=0 response=false" {
+		r.find(Finding{Kind: "violation", What: "a peer presenting a certificate that has EXPIRED (it was valid when the server's TLS configuration was prepared, " + life.String() + " earlier) was served", Input: "client certificate NotAfter = " + issued.Add(life).UTC().Format(time.RFC3339) + ", connection at " + time.Now().UTC().Format(time.RFC3339), Expect: "sessionAuth=0 requestAuth=0 handler=0 response=false", Actual: thenS})
+	}
+	if firstC != "connected=true request-bytes-received=true" {
+		r.find(Finding{Kind: "disagreement", What: "expiry scenario (harness): a Client could not talk to a server with a still-valid certificate", Actual: firstC})
+	} else if thenC != "connected=false request-bytes-received=false" {
+		r.find(Finding{Kind: "violation", What: "a Client prepared by DefaultClientTLSConfig sent a request to a server whose certificate has EXPIRED (it was valid when the configuration was prepared)", Input: "server certificate NotAfter = " + issued.Add(life).UTC().Format(time.RFC3339), Expect: "connected=false request-bytes-received=false", Actual: thenC})
+	}
+	r.Stats["expiry-after-preparation-scenarios"] += 2
 }
